@@ -43,7 +43,7 @@ DECIDES = {
 }
 
 MODEL_INVARIANTS = {
-    "C01": ["KeyAgreement", "VerifiedImpliesSameCode", "MismatchSilent"],
+    "C01": ["KeyAgreement", "VerifiedImpliesSameCode", "MismatchSilent", "MismatchNotHappy"],
     "C02": ["NoForgery"],
     "C03": ["InOrderOnce"],
     "C08": ["ClosedOnce", "NothingAfter", "VerdictRight", "VerdictKnown", "ServerFreedAtClose"],
@@ -146,6 +146,7 @@ def cfgs_for(prop, tier):   # noqa: F811  (replaces the draft above)
     elif prop == "C01":
         out["codes"] = mk(CodeChoices=codesB, MaxSend=F(1, 1))
         out["appids"] = mk(AppId=Raw('[c \\in {"A","B"} |-> IF c = "A" THEN "app" ELSE "app2"]'), MaxSend=F(1, 0))
+        out["codes_close"] = mk(CodeChoices=codesB, AllowClose={"A", "B"})
         if not q:
             out["codes_close_swap"] = mk(CodeChoices=codesB, MaxSend=F(1, 0), MaxSwap=1, AllowClose={"A"})
     elif prop == "C02":
